@@ -14,3 +14,7 @@ package link
 
 //@ func (*handleMountedStream).IsEquivalent
 //@   ensures ret ==> samegetters(d, other, HandleMountedStream)
+
+// a mounted stream always carries its underlying stream
+//@ iface MountedStream.GetStream pure
+//@ iface MountedStream.GetStream ensures ret != nil
